@@ -87,13 +87,17 @@ def normalise_over(arr, scope, v, uniform_if_zero=True):
 
 def project_world(world, rows, declared):
     """If state names are not declared to the estimator, the states of a variable are the observed ones, sorted."""
-    if declared:
+    if declared is True or declared == 1:
         return world, rows, None
     n = world["n"]
+    keep = set() if not declared else set(declared)  # a list / set: only these variables are declared
     names = Names(world)
     maps = []
     w2 = copy.deepcopy(world)
     for v in range(n):
+        if v in keep:
+            maps.append({s_: s_ for s_ in range(world["card"][v])})
+            continue
         seen = sorted({r[v] for r in rows}, key=lambda s: (str(type(names.S(v, s))), names.S(v, s)))
         maps.append({old: new for new, old in enumerate(seen)})
         w2["card"][v] = len(seen)
